@@ -38,6 +38,10 @@ class _Base:
         if cmd.startswith("find -L"):
             total = 0
             for p in re.findall(r'"([^"]*)"', cmd):
+                if self.sizes.get(p, 0) < 0:
+                    # scripted failure of the disk-usage probe: `_check_status` turns the non-zero status into a
+                    # WorkflowExecutionException inside remotepath.get_storage_usages
+                    return f"find: '{p}': Input/output error", 1
                 total += self.sizes.get(p, 0)
             return str(total), 0
         return "", 0
